@@ -51,7 +51,13 @@ def step (st : St) (ws : List String) (j : Json) : St × String :=
         (if b "sched_stopped" then [] else ["scheduler_stuck"]) ++
         (if b "rets_same" then [] else ["answered_as_serial"]) ++
         (if b "state_same" then [] else ["state_equals_serial"]) ++
-        (if (jarr (jget j "rp_problems")).isEmpty then [] else ["rp_valid"])
+        (if (jarr (jget j "rp_problems")).isEmpty then [] else ["rp_valid"]) ++
+        -- RRDP files: snapshots reach the disk in serial order, and once idle the notification
+        -- on disk is at the publication server's serial (C11 `serial_plus_one` under concurrency)
+        (let ws := (jarr (jget j "written_serials")).map jnat
+         if (ws.zip (ws.drop 1)).all (fun (a, b) => a ≤ b) then [] else ["rrdp_serials_monotone"]) ++
+        (if b "staged_pending" || jget j "disk_serial" == jget j "content_serial_after_idle_update"
+         then [] else ["rrdp_files_current"])
       if orc.isEmpty then
         let classes := (edges.filterMap fun (a, b) => match parseLock a, parseLock b with
           | some x, some y => some (edgeClass x y) | _, _ => none).eraseDups
